@@ -158,7 +158,7 @@ def wl_panel(ctx, rng, case_no):
                 continue
         else:
             from rich.text import Text
-            title_plain = SP.title_plain(spec).expandtabs(8)
+            title_plain = SP.title_plain(spec).expandtabs((spec.get("title_text") or {}).get("tab_size") or 8)
             if not (tt.startswith(box.top_left) and tt.endswith(box.top_right)):
                 ctx.violation("panel-top-edge-wrong", wit)
                 continue
